@@ -34,6 +34,9 @@ type zzWal struct {
 	failAppends  int // the next failAppends AppendAsync calls fail with an I/O error and store nothing
 	frozen       bool // set by a harness once the node has answered NewTerm: the log must not grow any more
 	racy         bool // Sync is a schedule point (concurrency harnesses)
+	yieldOnRead  bool // opening a forward reader is a schedule point ("wal.reader:<name>"): a round that reads the log can be overtaken
+	openFwd      int  // forward readers currently open
+	maxOpenFwd   int
 }
 
 var errZZWalIO = errors.New("zz: transient wal i/o error")
@@ -118,6 +121,14 @@ func (w *zzWal) NewReader(after int64) (wal.Reader, error) {
 	if after+1 < w.first {
 		return nil, wal.ErrEntryNotFound
 	}
+	w.openFwd++
+	if w.openFwd > w.maxOpenFwd {
+		w.maxOpenFwd = w.openFwd
+	}
+	if w.yieldOnRead {
+		vYield("wal.reader:" + w.name)
+		vSettle(20) // natively: the round that opened the reader stays in this window for a while
+	}
 	return &zzWalReader{w: w, next: after + 1, dir: 1}, nil
 }
 func (w *zzWal) NewReverseReader() (wal.Reader, error) {
@@ -141,7 +152,13 @@ type zzWalReader struct {
 	closed bool
 }
 
-func (r *zzWalReader) Close() error { r.closed = true; return nil }
+func (r *zzWalReader) Close() error {
+	if !r.closed && r.dir > 0 {
+		r.w.openFwd--
+	}
+	r.closed = true
+	return nil
+}
 func (r *zzWalReader) HasNext() bool {
 	if r.closed {
 		return false
